@@ -103,8 +103,20 @@ func (a *Agent) Start(p pool.Pool) error {
 		a.mu.Unlock()
 		return ErrAlreadyStarted
 	}
+	a.started = true
 	a.mu.Unlock()
 
+	if err := a.start(p); err != nil {
+		a.mu.Lock()
+		a.started = false
+		a.mu.Unlock()
+		return err
+	}
+	return nil
+}
+
+// start does the work of Start once the agent is marked as started.
+func (a *Agent) start(p pool.Pool) error {
 	startCtx, cancel := context.WithTimeout(context.Background(), startTimeout)
 	defer cancel()
 
@@ -142,7 +154,11 @@ func (a *Agent) Start(p pool.Pool) error {
 	}
 
 	go func() {
-		a.waitCh <- a.serveUpdates(p)
+		err := a.serveUpdates(p)
+		a.mu.Lock()
+		a.started = false
+		a.mu.Unlock()
+		a.waitCh <- err
 	}()
 	return nil
 }
